@@ -5,12 +5,13 @@ CONSTANTS
   Level = 2
   Impl = "required"
   MaxLen = 2
-  Fates = {"ok", "fatal", "retry1", "retryx"}
+  Fates = {"ok", "fatal", "retry1", "retryx", "nohandler", "noprep", "retryh"}
   MaxFail = 3
   WorldTx = {"W"}
   EnsureTx = FALSE
   ImplWR = "required"
   CancelOn = FALSE
+  InitVals = {0}
   RetryCount = 2
   MaxOps = 0
 INVARIANT NotAccepted
